@@ -189,7 +189,7 @@ Rules(e) ==
              (\/ Cardinality(RWs(cmode)) # RF
               \/ \E a \in Members : nd[a].cp # checkpoint)
           THEN {"CheckpointAgreed"} ELSE {})
-    \cup (IF \E a, b \in Addr : \E n \in UserSnapNames(nd[a]) \cap UserSnapNames(nd[b]) :
+    \cup (IF \E a, b \in Members : \E n \in UserSnapNames(nd[a]) \cap UserSnapNames(nd[b]) :
                 SeqSet(nd[a].snapat[n]) # SeqSet(nd[b].snapat[n])
           THEN {"SnapSamePoint"} ELSE {})
     \cup (IF e.ev = "Snapshot" /\ e.res = "ok" /\ Cardinality(RWs(prev.cmode)) # RF
